@@ -182,8 +182,19 @@ def r3(R):
         nn1, nn2 = g.params[3].name, g.params[7].name
         i1g = [x for x in incs.get("i1", []) if ("<", "i2", nn2) in x]
         i2g = [x for x in incs.get("i2", []) if ("<", "i1", nn1) in x]
-        ok = any(("<", ka, kb) in x for x in i1g) and any(("<", kb, ka) in x for x in i2g) and any(("==", ka, kb) in x for x in i1g) and any(("==", ka, kb) in x for x in i2g) \
-            and not any(("<", kb, ka) in x for x in i1g) and not any(("<", ka, kb) in x for x in i2g)
+        def orders(gs):
+            """which of  ka < kb, ka == kb, ka > kb  the guard set leaves possible (if / else-if chains give p1 != p2 and p1 <= p2)"""
+            poss = {"<", "==", ">"}
+            allow = {("<", ka, kb): {"<"}, ("<", kb, ka): {">"}, ("<=", ka, kb): {"<", "=="}, ("<=", kb, ka): {">", "=="},
+                     ("==", ka, kb): {"=="}, ("==", kb, ka): {"=="}, ("!=", ka, kb): {"<", ">"}, ("!=", kb, ka): {"<", ">"}}
+            for g_ in gs:
+                if g_ in allow:
+                    poss &= allow[g_]
+            return poss
+        o1 = [orders(x) for x in i1g]
+        o2 = [orders(x) for x in i2g]
+        ok = bool(o1) and bool(o2) and set().union(*o1) == {"<", "=="} and set().union(*o2) == {">", "=="} \
+            and all(len(o) == 1 for o in o1 + o2) and sorted(map(tuple, o1)) == [("<",), ("==",)] and sorted(map(tuple, o2)) == [("==",), (">",)]
         R.check(ok, "C14.R3", SP, wl[0].line, "coverlaps", "i1++ iff key1 <= key2, i2++ iff key2 <= key1 (direct comparisons of the keys)",
                 "the merge does not advance by direct comparison of the two packed keys")
     # -- mask_to_coo range checks
@@ -256,7 +267,28 @@ def r4(R, m):
     R.check("self.tmp = np.empty(nnzmax + 1, 'i')" in ast.unparse(rl), "C14.R4", SPF, rl.lineno, "overlaps_linear.realloc", "tmp sized nnzmax + 1", "histogram shorter than nnzmax + 1")
     call = sibs["overlaps_linear.__call__"]
     u = ast.unparse(call)
-    R.check("max(max(len(row1), len(row2)), max(n1, n2))" in u and "if nnz > self.nnzmax" in u, "C14.R4", SPF, call.lineno, "overlaps_linear.__call__", "nnzmax >= max(len(row1), len(row2), n1, n2) under checkmem",
+    def max_leaves(n):
+        """max(max(a, b), max(c, d)) == max(a, b, c, d): the set of leaf expressions of nested max() calls"""
+        if isinstance(n, ast.Call) and src(n.func) in ("max", "np.max", "numpy.max", "np.maximum", "numpy.maximum") and not n.keywords and n.args:
+            args = n.args[0].elts if len(n.args) == 1 and isinstance(n.args[0], (ast.Tuple, ast.List)) else n.args
+            out = set()
+            for a in args:
+                out |= max_leaves(a)
+            return out
+        return {pyfacts.resolved_src(call, n)}
+    sized = [(a, max_leaves(a.value)) for a in ast.walk(call) if isinstance(a, ast.Assign) and len(a.targets) == 1 and isinstance(a.targets[0], ast.Name)
+             and isinstance(a.value, ast.Call) and len(max_leaves(a.value)) > 1]
+    grow = [i for i in ast.walk(call) if isinstance(i, ast.If) and "self.nnzmax" in src(i.test) and any("realloc" in src(b) for b in i.body)]
+    R.shape(bool(sized) and bool(grow), "C14.R4", SPF, "overlaps_linear.__call__", "size = max(...) followed by 'if size > self.nnzmax: realloc'")
+    need = {"len(row1)", "len(row2)", "n1", "n2"}
+    okk = False
+    for a, leaves in sized:
+        t = a.targets[0].id
+        for i in grow:
+            tt = src(i.test).replace(" ", "")
+            if tt in ("%s>self.nnzmax" % t, "self.nnzmax<%s" % t) and need <= leaves:
+                okk = True
+    R.check(okk, "C14.R4", SPF, call.lineno, "overlaps_linear.__call__", "nnzmax >= max(len(row1), len(row2), n1, n2) under checkmem (found %s)" % [sorted(l) for a, l in sized],
             "the work arrays are not grown for the largest label / frame")
     om = m.func("overlaps_matrix.__call__")
     asserts = [a for a in ast.walk(om) if isinstance(a, ast.Assert)]
